@@ -12,6 +12,14 @@ CHECKS = {
    technique="bounded-exhaustive enumeration of ten kind-directed program fragments; each program is compiled by the real pipeline and evaluated by an independent reference semantics; emitted YAML is extracted into an abstract document and compared exactly (implicit components by bisimulation)",
    text="For every program of fragments F1-F10 (schemas, contents x ranges, transfers, URIs/concat, declarations and scoping under all statement orders, recursion, @references, modules, annotations, collisions) the document emitted by the real compiler must equal the document computed by an independent, lexically scoped reference evaluator: same paths, operations, parameters, bodies, (status, media) responses, headers, required flags and annotations, same @components, implicit components equal up to unfolding and none left over.",
    note="The reference evaluator (refsem.rs), the YAML extractor (doc.rs) and serde_yaml are trusted. Constructs the language leaves undefined are reported as `unspecified` by the reference and only checked for crashes (listed in DESIGN.md §3.2). Map key order is not compared."),
+ "C03": dict(engine="progspace", design="§4 C03",
+   technique="bounded-exhaustive enumeration of accepted programs (fragments F1-F10, kind-agnostic space, annotation matrix, fragments x base documents) through the real pipeline; independent validator on the emitted YAML plus typed round trip",
+   text="Every document emitted for the explored program spaces (quick: 73 k documents out of 230 k programs) is checked by a validator that knows nothing about the compiler: all $refs resolve inside the document, path-template variables and required path parameters agree per operation, response keys are default / 100-599 / 1XX-5XX, operationIds are unique, and the YAML text parses back to an equal openapiv3 value that re-serialises byte-identically.",
+   note="Paths with repeated variable names and operationIds written by the program itself are excluded as the property states. Base documents only carry references outside components.schemas. Trusts serde_yaml and openapiv3 for the round trip."),
+ "C06": dict(engine="choice-tape", design="§4 C06, hook H4",
+   technique="stateless model checking over hash-map iteration orders (ChoiceMap hook: every iteration is a choice point, all tapes with <= 2 deviations enumerated) and over prior in-process compilations (all ordered pairs / triples); byte comparison of the YAML",
+   text="Iteration order of the compiler's hash maps is owned by the explorer through the ChoiceMap hook: for every corpus program the real pipeline is re-executed under every order of every hash-map iteration it performs (all n! orders up to 4 entries, <= 2 deviations) and after every ordered pair (thorough: triple) of other programs compiled before it in the same process; the YAML must be byte-identical. On the present tree the compile path meets zero choice points, i.e. no hash-ordered iteration can reach the output at all. A free-running run of the real oal-cli in 6 fresh processes per program is reported as confirmation only.",
+   note="Only maps imported through the cfg-switched `use … HashMap` lines are controlled; time, threads and environment are not inputs of the compile path (it is single-threaded and reads no clock). The multi-process confirmation is sampling of hash seeds and is labelled as such."),
  "C16": dict(engine="textspace", design="§4 C16",
    technique="explicit-state exhaustive enumeration of all texts <= n symbols x all offsets/positions/spans through the real conversion functions, compared with a line-table reference model",
    text="Every text of up to 6 (quick) / 8 (thorough) symbols over {a, é, €, 😉, LF, CRLF} is a state; every byte offset, every (line, character) position including out-of-range ones and every span is converted by the real position_to_utf8 / utf8_to_position / utf8_range_to_position / CharSpan::from and compared with an independent line-table model. The space is enumerated completely, so the verdict is 'no text of that size has a wrong conversion', which example tests cannot give.",
